@@ -44,5 +44,7 @@ run C06 cubed/random.py 'rg = Generator\(Philox\(key=root_seed \+ stream_id\)\)'
 run C06 cubed/random.py '    root_seed = pyrandom.getrandbits\(128\)\n' '    root_seed = 0\n' --only cubed.random
 run C01 cubed/core/ops.py 'result = nxp.concat\(\[result, reduced_chunk\], axis=axis\[0\]\)\n            result = reduce_func' 'result = nxp.concat([result, result], axis=axis[0])\n            result = reduce_func' --only 'cubed.core.ops:partial_reduce'
 run C12 cubed/core/ops.py 'k: nxp.concat\(\[result\[k\], reduced_chunk\[k\]\], axis=axis\[0\]\)' 'k: nxp.concat([result[k], reduced_chunk[k]], axis=axis[0]) if k != "n" else result[k]' --only 'partial_reduce[structured]'
+run C01 cubed/core/ops.py 'for _ in range\(depth\):' 'for _ in range(depth - 1):' --only 'ops:reduction'
+run C01 cubed/core/ops.py 'axis_to_squeeze = tuple\(i for i in axis if result.shape\[i\] == 1\)' 'axis_to_squeeze = tuple(i for i in axis[:1] if result.shape[i] == 1)' --only 'ops:reduction'
 echo "selected=$n"
 exit $fail
